@@ -176,7 +176,7 @@ class UnusedTranslator:
             for arg in arguments:
                 vars_.update(collect_ast(arg, "Variable"))
             map_: dict[AST, AST] = {}
-            for v in vars_:
+            for v in sorted(vars_):
                 map_[v] = uv.make_unique(v)
 
             def replace(var: AST) -> AST:
